@@ -21,7 +21,7 @@ def run(ctx):
                 "with size+integrity options], target length in {0,1,16KiB-1,16KiB,16KiB+1,100KiB}, absolute or "
                 "relative target path with the driver chdir'ed next to the target or elsewhere (ten spellings of the same file: "
                 "./x, ../t/x, sub/../x, symlinked-dir/../x, via a symlinked directory, cwd entered through a symlink, ..//t/./x), partial reads of "
-                "{0,1,8,9,16KiB,all} bytes before commit, address pre-existing as regular content or not, post-link "
+                "{0,1,8,9,16KiB,all} bytes (optionally followed by read_to_end) before commit, address pre-existing as regular content or not, post-link "
                 "mutation of the target [none/modify/truncate/replace/remove]). Judged: read(key)/read_hash(address) "
                 "bytes, recorded size, lstat of the content path (symlink unless a regular file pre-existed), target "
                 "bytes/mode/mtime unchanged, reads after mutation never Ok with different bytes, size/integrity "
@@ -95,6 +95,9 @@ def run(ctx):
         expect = {"Ok"}
         if via != "fn":
             req["reads"] = rng.choice([[], [0], [1], [8], [9], [BUF], [ln + 10], [3, 5, BUF, 7]])
+            if rng.random() < 0.35:
+                # the rest is consumed through read_to_end(): the linker is then polled with a partly filled buffer
+                req["then_to_end"] = True
         if via == "opts":
             opts = {}
             r = rng.random()
